@@ -6,7 +6,70 @@ from props import common as cm
 def run(tier):
     r = Run('C17', tier, level='other')
     cm.run_kernels(r, cm.kernels('c_armodel_sim', 'c_armodel_residual'))
+    from vf import child
+    res = child.run('props.C17', 'monitors_child', r.prop, r.tier, r.seed)
+    child.merge(r, res['recorder'])
+    if res['rc'] != 0:
+        r.broken.append('C17 monitors child failed (rc=%s) at %s: %s' % (res['rc'], res['progress'], res['stderr'][-1500:]))
     r.explanation = ('proved (Engine C, products phi*y compared structurally): armodel_sim satisfies y[t]-m = sum phi[k](y[t-k]-m) + e[t] from the initial value, '
                      'armodel_residual returns v[t] - sum phi[k] v[t-k] with missing inputs replaced by their prediction (zero residual), orders outside 1..10 and NaN '
                      'parameters rejected; bounded: residual(sim(e)) = e and sim(residual(y)) = y through the Python API')
     return r.finish()
+
+
+# ------------------------------------------------------------------------------------------------ python-level bounded monitor
+def _fail(rec, name, what, **w):
+    rec.violation(dict(function=name, kind='monitor', clause=what.split(':')[0][:80]), 'bounded monitor %s: %s' % (name, what), witness=dict(python=True, source='bounded monitor', **w))
+
+
+def monitors_child(rec):
+    import random, warnings
+    from fractions import Fraction as Fr
+    import numpy as np
+    from props import apidrive
+    from vf import child
+    apidrive.setup()
+    from hydrodiy.stat import armodels as A
+    warnings.simplefilter('ignore')
+    rng = random.Random(rec.seed + 17)
+    quick = rec.tier == 'quick'
+    ev = 0; bad = 0
+    lat = [Fr(k, 8) for k in range(-24, 25)]
+    for it in range(250 if quick else 2500):
+        child.progress('armodels %d' % it)
+        order = rng.choice([1, 1, 2, 3, 5, 10]); n = rng.choice([1, 2, 3, 7, 25])
+        phi = [rng.choice([Fr(0), Fr(1, 2), Fr(-1, 4), Fr(1, 8), Fr(3, 4), Fr(-1, 2)]) for _ in range(order)]
+        mean = rng.choice([Fr(0), Fr(20), Fr(-7, 2), Fr(1, 4)])
+        ini = rng.choice([None, Fr(0), Fr(10), mean, Fr(-7, 2), Fr(0)])
+        e = [rng.choice(lat) for _ in range(n)]
+        # exact oracle of the recursion started from the initial value
+        y0 = mean if ini is None else ini
+        prev = [y0 - mean] * order; ys = []
+        for t in range(n):
+            v = sum(p * q for p, q in zip(phi, prev)) + e[t]
+            ys.append(v + mean); prev = [v] + prev[:-1]
+        fphi = np.array([float(p) for p in phi]); fe = np.array([float(x) for x in e])
+        kw = dict(sim_mean=float(mean)); kw2 = dict(sim_mean=float(mean))
+        if ini is not None:
+            kw['sim_ini'] = float(ini); kw2['sim_ini'] = float(ini)
+        ev += 1
+        try:
+            y = A.armodel_sim(fphi, fe, **kw)
+            r = A.armodel_residual(fphi, y, **kw2)
+            y2 = A.armodel_sim(fphi, r, **kw)
+            ok1 = np.allclose(y, [float(v) for v in ys], rtol=1e-12, atol=1e-12)
+            # cancellation: the residual is a difference of terms of the size of the (possibly explosive) simulation
+            scale = max(1.0, float(np.max(np.abs(y)))) * 1e-13 * (order + 1)
+            ok2 = np.allclose(r, fe, rtol=0, atol=scale)
+            ok3 = np.allclose(y2, y, rtol=1e-11, atol=scale * 10)
+            # the default initial value is the mean
+            ok4 = True
+            if ini is None:
+                ok4 = np.allclose(A.armodel_residual(fphi, y, sim_mean=float(mean), sim_ini=float(mean)), r, rtol=1e-12, atol=1e-12)
+            if not (ok1 and ok2 and ok3 and ok4):
+                bad += 1; _fail(rec, 'armodel_sim/armodel_residual', 'inverse: sim == recursion %s, residual(sim(e)) == e %s, sim(residual(y)) == y %s, default initial value %s' % (ok1, ok2, ok3, ok4),
+                                params=[float(p) for p in phi], innov=fe.tolist(), sim_mean=float(mean), sim_ini=None if ini is None else float(ini), sim=np.asarray(y).tolist(), residual=np.asarray(r).tolist())
+        except Exception as ex:
+            bad += 1; _fail(rec, 'armodel_sim/armodel_residual', 'raises: %s %s' % (type(ex).__name__, str(ex)[:120]), params=[float(p) for p in phi], sim_mean=float(mean), sim_ini=None if ini is None else float(ini))
+    rec.bounded_clause('armodel_sim follows the recursion from the initial value; residual(sim(e)) == e and sim(residual(y)) == y through the Python API, explicit and default initial values (incl. 0 with a non-zero mean)',
+                       '%d cases: orders 1..10, 1..25 steps, coefficients / innovations on a dyadic lattice (exact rational oracle), 4 means x 5 initial values' % (250 if quick else 2500), ev, ev, False, bad)
